@@ -22,18 +22,6 @@ def hasLongHexLine (s : Bytes) : Bool :=
       else go t (n + 1) (allHex && (Spec.Resp.hexVal c).isSome)
   go s 0 true
 
-/-- some LF-terminated line is a hex number ≥ 2^47: allocating a buffer for such a chunk exceeds what `make` accepts -/
-def hasHugeChunk (s : Bytes) : Bool :=
-  let rec go : Bytes → Nat → Bool → Bool
-    | [], _, _ => false
-    | c :: t, v, allHex =>
-      if c = 10 then (allHex && v ≥ 2 ^ 47) || go t 0 true
-      else if c = 13 || c = 32 then go t v allHex
-      else match Spec.Resp.hexVal c with
-        | some d => go t (v * 16 + d) allHex
-        | none => go t v false
-  go s 0 true
-
 /-- the interim responses in front of the final one skipped (strict reader) -/
 def skipInterim : Nat → Bytes → Option (Spec.Resp.Msg × Bytes)
   | 0, _ => none
@@ -52,16 +40,6 @@ def hardInterim (s : Bytes) : Bool :=
        | none => false)
     else 100 < m.status && m.status < 200 && m.status != 101
   | none => false
-
-/-- some decimal digit run is a number ≥ 2^47 (a `Content-Length` of that size takes the same allocation route as a huge
-chunk size: `appendBodyFixedSize` sizes a buffer by the peer-declared length before any data arrived) -/
-def hasHugeDec (s : Bytes) : Bool :=
-  let rec go : Bytes → Nat → Bool
-    | [], v => v ≥ 2 ^ 47
-    | c :: t, v =>
-      if 48 ≤ c && c ≤ 57 then go t (v * 10 + (c - 48).toNat)
-      else v ≥ 2 ^ 47 || go t 0
-  go s 0
 
 /-- the response a strict reader sees at the front of `s` (interim 1xx responses skipped),
 `none` when `s` is not a well-formed response there -/
@@ -431,9 +409,6 @@ def handle : Handler
     let e := if endK == "stall" then End.stall else End.eof
     let skip := flags.contains 'h'
     let (sok, snote) := specCheck skip e maxBody.toNat! s impl
-    -- known finding: a huge declared chunk size makes the reader allocate (and panic) before any data arrived
-    if impl == ["PANIC"] && (hasHugeChunk s || hasHugeDec s) then
-      return { out := impl, spec := false, cls := "huge-chunk-size-alloc", specNote := "reader panicked allocating a peer-declared chunk size / Content-Length", tag := (if hasHugeChunk s then "respread:hugechunk" else "respread:hugecl") }
     match readResponseSkip skip (flags.contains 'n') maxBody.toNat! e s with
     | .error x => pure { out := [errTok x], spec := sok, specNote := snote, cls := if !sok && hardInterim s then "interim-1xx-taken-as-final" else "",
                          tag := "respread:" ++ errTok x ++ (if endK == "stall" then "S" else "E") }
